@@ -264,18 +264,21 @@ Fixpoint filterfalse_go (p : Z -> bool) (k : kind) (l : list Z) (yielded : bool)
 Definition filterfalse_model (p : Z -> bool) (s : src) : trace Z :=
   (filterfalse_go p (fst s) (snd s) false, None).
 
-(* groupby (349-373); key=None is the identity *)
-Fixpoint groupby_loop (key : Z -> Z) (k : kind) (gk : Z) (values l : list Z) : list (event (Z * list Z)) :=
+(* groupby; key=None is the identity.  `same old new` is the test the code applies to consecutive keys
+   (`group_key is next_key or group_key == next_key`, the PyObject_RichCompareBool of itertools): an arbitrary
+   relation - for objects like NaN it is not reflexive on equal-looking values, and nothing is assumed about it *)
+Fixpoint groupby_loop (same : Z -> Z -> bool) (key : Z -> Z) (k : kind) (gk : Z) (values l : list Z)
+  : list (event (Z * list Z)) :=
   match l with
   | [] => pre k ++ [Yield (gk, values)]
-  | x :: r => pre k ++ if negb (key x =? gk)%Z then Yield (gk, values) :: groupby_loop key k (key x) [x] r
-                       else groupby_loop key k gk (values ++ [x]) r
+  | x :: r => pre k ++ if negb (same gk (key x)) then Yield (gk, values) :: groupby_loop same key k (key x) [x] r
+                       else groupby_loop same key k gk (values ++ [x]) r
   end.
 
-Definition groupby_model (key : Z -> Z) (s : src) : trace (Z * list Z) :=
+Definition groupby_model (same : Z -> Z -> bool) (key : Z -> Z) (s : src) : trace (Z * list Z) :=
   match snd s with
   | [] => (pre (fst s) ++ [Ck], None)
-  | x :: r => (pre (fst s) ++ groupby_loop key (fst s) (key x) [x] r, None)
+  | x :: r => (pre (fst s) ++ groupby_loop same key (fst s) (key x) [x] r, None)
   end.
 
 (* islice (394-466) *)
@@ -292,19 +295,44 @@ Definition dflt (d : Z) (o : option Z) : Z := match o with Some v => v | None =>
 Definition below (index : Z) (stop : option Z) : bool :=
   match stop with None => true | Some s => (index <? s)%Z end.
 
-Fixpoint islice_go (k : kind) (start : Z) (stop : option Z) (step : Z) (l : list Z) (index : Z) (yielded : bool)
+(* one __anext__ on the source with the consumption made visible (Nx): adaptor = check, next(), shielded yield *)
+Definition poll {A} (k : kind) : list (event A) :=
+  match k with KSync => [CkIf; Nx; Sh] | KAsync => [Nx] end.
+
+(* after the F36 fix: the loop runs to limit = max(start, stop) so that the first `start` elements are consumed
+   even when nothing can be yielded; there is no early return any more *)
+Fixpoint islice_go (k : kind) (start : Z) (limit : option Z) (step : Z) (l : list Z) (index : Z) (yielded : bool)
   : list (event Z) :=
-  if below index stop then
+  if below index limit then
     match l with
-    | [] => pre k ++ tail yielded
+    | [] => poll k ++ tail yielded
     | x :: r =>
-        pre k ++ if (start <=? index)%Z && ((index - start) mod step =? 0)%Z
-                 then Yield x :: islice_go k start stop step r (index + 1)%Z true
-                 else islice_go k start stop step r (index + 1)%Z yielded
+        poll k ++ if (start <=? index)%Z && ((index - start) mod step =? 0)%Z
+                  then Yield x :: islice_go k start limit step r (index + 1)%Z true
+                  else islice_go k start limit step r (index + 1)%Z yielded
     end
   else tail yielded.
 
+Definition islice_limit (start : Z) (stop : option Z) : option Z :=
+  match stop with None => None | Some st => Some (Z.max start st) end.
+
 Definition islice_model (args : list (option Z)) (s : src) : trace Z :=
+  match args with
+  | [] => ([], Some TypeError)
+  | _ :: _ :: _ :: _ :: _ => ([], Some TypeError)
+  | _ =>
+      let '(a, b, c) := slice_args args in
+      if neg_opt a then ([], Some ValueError) else
+      if neg_opt b then ([], Some ValueError) else
+      if neg_opt c then ([], Some ValueError) else
+      let start := dflt 0%Z a in
+      let step := dflt 1%Z c in
+      if (step <=? 0)%Z then ([], Some ValueError) else
+      (islice_go (fst s) start (islice_limit start b) step (snd s) 0%Z false, None)
+  end.
+
+(* the shape before the fix (kept for the refutation witness): early return, loop bounded by stop *)
+Definition islice_model_pre_F36 (args : list (option Z)) (s : src) : trace Z :=
   match args with
   | [] => ([], Some TypeError)
   | _ :: _ :: _ :: _ :: _ => ([], Some TypeError)
@@ -320,6 +348,8 @@ Definition islice_model (args : list (option Z)) (s : src) : trace Z :=
       then ([Ck], None)
       else (islice_go (fst s) start b step (snd s) 0%Z false, None)
   end.
+
+Definition count_next {A} (t : list (event A)) : nat := length (filter is_next t).
 
 (* pairwise (469-487) *)
 Fixpoint pairwise_loop (k : kind) (prev : Z) (l : list Z) (yielded : bool) : list (event (Z * Z)) :=
@@ -522,16 +552,22 @@ Definition dropwhile_spec (p : Z -> bool) (l : list Z) : list Z * option err := 
 Definition filterfalse_spec (p : Z -> bool) (l : list Z) : list Z * option err :=
   (filter (fun x => negb (p x)) l, None).
 
-Fixpoint groupby_list (key : Z -> Z) (l : list Z) : list (Z * list Z) :=
-  match l with
-  | [] => []
-  | x :: r => match groupby_list key r with
-              | (k, g) :: rest => if (key x =? k)%Z then (k, x :: g) :: rest
-                                  else (key x, [x]) :: (k, g) :: rest
-              | [] => [(key x, [x])]
-              end
+Fixpoint takewhile_list (p : Z -> bool) (l : list Z) : list Z :=
+  match l with [] => [] | x :: r => if p x then x :: takewhile_list p r else [] end.
+
+(* a group = an element and the longest run of following elements whose key is `same` as that first element's key
+   (itertools compares the key of the group's FIRST element with every later key, in that order) *)
+Fixpoint groupby_fuel (fuel : nat) (same : Z -> Z -> bool) (key : Z -> Z) (l : list Z) : list (Z * list Z) :=
+  match fuel with
+  | 0 => []
+  | S f => match l with
+           | [] => []
+           | x :: r => (key x, x :: takewhile_list (fun y => same (key x) (key y)) r)
+                       :: groupby_fuel f same key (dropwhile_list (fun y => same (key x) (key y)) r)
+           end
   end.
-Definition groupby_spec (key : Z -> Z) (l : list Z) : list (Z * list Z) * option err := (groupby_list key l, None).
+Definition groupby_spec (same : Z -> Z -> bool) (key : Z -> Z) (l : list Z) : list (Z * list Z) * option err :=
+  (groupby_fuel (length l) same key l, None).
 
 Fixpoint enumZ (i : Z) (l : list Z) : list (Z * Z) :=
   match l with [] => [] | x :: r => (i, x) :: enumZ (i + 1)%Z r end.
@@ -549,6 +585,21 @@ Definition islice_spec (args : list (option Z)) (l : list Z) : list Z * option e
       else (map snd (filter (islice_sel (dflt 0 a) b (dflt 1 c)) (enumZ 0 l)), None)
   end.
 
+(* how many elements islice takes from its source (itertools: the first max(start, stop) if there are that many) *)
+Definition islice_consumed (args : list (option Z)) (l : list Z) : nat :=
+  let '(a, b, c) := slice_args args in
+  match b with
+  | None => length l
+  | Some st => Nat.min (length l) (Z.to_nat (Z.max (dflt 0 a) st))
+  end.
+
+(* chain(islice(it, *args), it) over ONE shared iterator: the slice, then whatever the slice left in it *)
+Definition islice_then_rest_spec (args : list (option Z)) (l : list Z) : list Z * option err :=
+  match snd (islice_spec args l) with
+  | Some e => ([], Some e)
+  | None => (fst (islice_spec args l) ++ skipn (islice_consumed args l) l, None)
+  end.
+
 Definition pairwise_spec (l : list Z) : list (Z * Z) * option err := (combine l (List.tl l), None).
 
 Definition repeat_spec (x : Z) (times : option Z) (k : nat) : list Z * option err :=
@@ -559,8 +610,6 @@ Definition repeat_spec (x : Z) (times : option Z) (k : nat) : list Z * option er
 
 Definition starmap_spec (f : list Z -> Z) (ls : list (list Z)) : list Z * option err := (map f ls, None).
 
-Fixpoint takewhile_list (p : Z -> bool) (l : list Z) : list Z :=
-  match l with [] => [] | x :: r => if p x then x :: takewhile_list p r else [] end.
 Definition takewhile_spec (p : Z -> bool) (l : list Z) : list Z * option err := (takewhile_list p l, None).
 
 Definition max_len (ls : list (list Z)) : nat := fold_right (fun l a => Nat.max (length l) a) 0 ls.
@@ -886,6 +935,27 @@ Definition zip_longest_alias_run (fill : Z) (kd : ikinds) (st : istore) (ps : li
 Definition zip_longest_alias_model (fill : Z) (kd : ikinds) (st : istore) (ps : list nat) : trace (list Z) :=
   match zip_longest_alias_run fill kd st ps with Some t => (t, None) | None => ([], None) end.
 
+(* chain(islice(it, *args), it): the slice and then the rest of the SAME iterator.  The rest is what the slice did
+   not take: the number of its successful polls is min(polls, length). *)
+Fixpoint drain_nx (k : kind) (l : list Z) : list (event Z) :=
+  match l with
+  | [] => poll k
+  | x :: r => poll k ++ Yield x :: drain_nx k r
+  end.
+
+Definition islice_then_rest_model (ko : kind) (args : list (option Z)) (s : src) : trace Z :=
+  let t := islice_model args s in
+  match snd t with
+  | Some e => (pre ko ++ fst t, Some e)
+  | None =>
+      let rest := skipn (Nat.min (count_next (fst t)) (length (snd s))) (snd s) in
+      (pre ko ++ fst t ++ pre ko ++ drain_nx (fst s) rest ++ pre ko
+         ++ tail (match yields (fst t) with [] => false | _ => true end || nonempty rest), None)
+  end.
+
+(* reduce(f, <not an iterable>): the cancellation check, then TypeError *)
+Definition reduce_model_noniterable : trace Z := ([CkIf], Some TypeError).
+
 (* ---- specs: the standard-library semantics when positions share underlying iterators ---- *)
 Definition chain_alias_spec (st : istore) (ps : list nat) : list Z * option err := (concat (drain st ps), None).
 Definition product_alias_spec (rep : Z) (st : istore) (ps : list nat) : list (list Z) * option err :=
@@ -947,6 +1017,17 @@ Definition keyf (c : Z) : Z -> Z :=
   match c with
   | 0 => fun x => x | 1 => fun x => (x mod 2)%Z | 2 => fun _ => 0%Z | 3 => fun x => (x / 2)%Z
   | _ => fun x => (if x =? 1 then 1 else 0)%Z
+  end%Z.
+
+(* objects: 100 * identity + value; value 99 is a NaN (x != x).  same_obj = identical object, or equal values that are
+   not NaN - what `a is b or a == b` gives on ints and NaNs; eq_only = `==` alone (the test before the F35 fix) *)
+Definition eq_only (a b : Z) : bool := ((a mod 100 =? b mod 100) && negb (a mod 100 =? 99))%Z.
+Definition same_obj (a b : Z) : bool := (a =? b)%Z || eq_only a b.
+Definition samef (c : Z) : Z -> Z -> bool := match c with 0%Z => Z.eqb | _ => same_obj end.
+(* keys for the NaN family: 0 identity (key=None), 1 one NaN object for every element, 2 is-NaN indicator *)
+Definition keyf2 (c : Z) : Z -> Z :=
+  match c with
+  | 0 => fun x => x | 1 => fun _ => 99%Z | _ => fun x => (if x mod 100 =? 99 then 1 else 0)%Z
   end%Z.
 
 Definition fnN (c : Z) : list Z -> Z :=
@@ -1041,7 +1122,7 @@ Definition run_model_case (c : list Z) : list Z :=
   | 8 :: k :: r => let (s, _) := rd_src r in enc_trace eZ (cycle_model s (zn k))
   | 9 :: pc :: r => let (s, _) := rd_src r in enc_trace eZ (dropwhile_model (predf pc) s)
   | 10 :: pc :: r => let (s, _) := rd_src r in enc_trace eZ (filterfalse_model (predf pc) s)
-  | 11 :: kc :: r => let (s, _) := rd_src r in enc_trace eG (groupby_model (keyf kc) s)
+  | 11 :: kc :: r => let (s, _) := rd_src r in enc_trace eG (groupby_model Z.eqb (keyf kc) s)
   | 12 :: na :: r => let (args, r1) := rd_opts (zn na) r in let (s, _) := rd_src r1 in
                      enc_trace eZ (islice_model args s)
   | 13 :: r => let (s, _) := rd_src r in enc_trace eP (pairwise_model s)
@@ -1057,6 +1138,10 @@ Definition run_model_case (c : list Z) : list Z :=
                      enc_trace eZ (reduce_model (fn2 fc) i s false)
   | 28 :: fc :: r => let (i, r1) := rd_opt r in let (s, _) := rd_src r1 in
                      enc_trace eZ (reduce_model (fn2 fc) i s true)
+  | 29 :: kc :: r => let (s, _) := rd_src r in enc_trace eG (groupby_model same_obj (keyf2 kc) s)
+  | 30 :: ko :: na :: r => let (args, r1) := rd_opts (zn na) r in let (s, _) := rd_src r1 in
+                           enc_trace eZ (islice_then_rest_model (rd_kind ko) args s)
+  | 31 :: _ => enc_trace eZ reduce_model_noniterable
   | 22 :: n :: _ => match tee_count n with inr _ => [4; 1] | inl k => [5; nz k] end
   | 23 :: r => let (f, r1) := rd_opt r in let '(kd, st, r2) := rd_store r1 in let (ps, _) := rd_nats r2 in
                enc_trace eL (zip_longest_alias_model (dflt none_code f) kd st ps)
@@ -1083,7 +1168,7 @@ Definition run_spec_case (c : list Z) : list Z :=
   | 8 :: k :: r => let (s, _) := rd_src r in enc_outcome eZ (cycle_spec (snd s) (zn k))
   | 9 :: pc :: r => let (s, _) := rd_src r in enc_outcome eZ (dropwhile_spec (predf pc) (snd s))
   | 10 :: pc :: r => let (s, _) := rd_src r in enc_outcome eZ (filterfalse_spec (predf pc) (snd s))
-  | 11 :: kc :: r => let (s, _) := rd_src r in enc_outcome eG (groupby_spec (keyf kc) (snd s))
+  | 11 :: kc :: r => let (s, _) := rd_src r in enc_outcome eG (groupby_spec Z.eqb (keyf kc) (snd s))
   | 12 :: na :: r => let (args, r1) := rd_opts (zn na) r in let (s, _) := rd_src r1 in
                      enc_outcome eZ (islice_spec args (snd s))
   | 13 :: r => let (s, _) := rd_src r in enc_outcome eP (pairwise_spec (snd s))
@@ -1097,6 +1182,10 @@ Definition run_spec_case (c : list Z) : list Z :=
                     enc_outcome eL (zip_longest_spec (dflt none_code f) (map snd ss))
   | 21 :: fc :: r => let (i, r1) := rd_opt r in let (s, _) := rd_src r1 in
                      enc_outcome eZ (reduce_spec (fn2 fc) i (snd s))
+  | 29 :: kc :: r => let (s, _) := rd_src r in enc_outcome eG (groupby_spec same_obj (keyf2 kc) (snd s))
+  | 30 :: ko :: na :: r => let (args, r1) := rd_opts (zn na) r in let (s, _) := rd_src r1 in
+                           enc_outcome eZ (islice_then_rest_spec args (snd s))
+  | 31 :: _ => enc_outcome eZ ([], Some TypeError)
   | 23 :: r => let (f, r1) := rd_opt r in let '(kd, st, r2) := rd_store r1 in let (ps, _) := rd_nats r2 in
                match zip_longest_alias_spec (dflt none_code f) st ps with
                | Some rows => enc_outcome eL (rows, None)
